@@ -9,6 +9,9 @@ resolution (`implResolve`) and Nix's scoping (`specResolve`) agree, and the code
   two fuels are independent, so no monotonicity of fuel is needed).
 * Lemma T (`resolveId_terminates`): every recursive call visits a new item of the chain.
 * `nav_agree`: walking by keys keeps the store and the spec's environment related (`NavRel`).
+* `sameName_of_bare`, `findBindKey_eq_findBind`, `getitemSet_bare`: `AttributeSet.__getitem__` compares
+  what key and name token denote (`sameName`); on the bare keys and bare names of the fragment that
+  is the comparison by spelling, so the traversal lemmas work with `getitemSetSpelled`.
 -/
 namespace Nima.Scope
 open Nima
@@ -44,7 +47,50 @@ theorem specName_of_bare (n : Text) (h : bareName n = true) : specName n = n := 
       exact absurd h1 h.1
     · rfl
 
+/-- a token without `"` is read by `_decode_attr_name` as itself when it is an identifier, and has
+    no static name otherwise -/
+theorem decodeAttrName_of_bare (n : Text) (h : bareName n = true) :
+    decodeAttrName n = if nameIdent n then some n else none := by
+  cases n with
+  | nil => rfl
+  | cons c cs =>
+    simp only [bareName, List.all_cons, Bool.and_eq_true, bne_iff_ne, ne_eq] at h
+    unfold decodeAttrName
+    split
+    · rename_i rest heq
+      injection heq with h1 _
+      exact absurd h1 h.1
+    · rfl
+
+/-- on tokens written without quotes `_same_attr_name` is the comparison by spelling -/
+theorem sameName_of_bare (a b : Text) (ha : bareName a = true) (hb : bareName b = true) :
+    sameName a b = (a == b) := by
+  unfold sameName
+  simp only [decodeAttrName_of_bare a ha, decodeAttrName_of_bare b hb]
+  by_cases h : a = b
+  · subst h; simp
+  · have hab : (a == b) = false := by simpa using h
+    rw [hab, Bool.false_or]
+    by_cases h1 : nameIdent a = true <;> by_cases h2 : nameIdent b = true <;>
+      simp [h1, h2, Ne.symm h]
+
 /-! ### item lookup in the scopes of the fragment -/
+
+/-- `set[key]` with a bare key on the bindings of a fragment set: the lookup by what the name tokens
+    denote (`findBindKey`, the code) is the lookup by spelling (`findBind`) -/
+theorem findBindKey_eq_findBind (key : Text) (s : List Item) (hk : bareName key = true)
+    (h : fragItems s = true) : findBindKey key s = findBind key s := by
+  induction s with
+  | nil => rfl
+  | cons it rest ih =>
+    cases it with
+    | bind id n v =>
+      simp only [fragItems, Bool.and_eq_true] at h
+      simp only [findBindKey, findBind, sameName_of_bare n key h.1.1 hk, beq_iff_eq, ih h.2]
+    | inh id ns =>
+      simp only [fragItems] at h
+      simp only [findBindKey, findBind, ih h]
+    | inhFrom id ns src => simp [fragItems] at h
 
 theorem findQuoted_eq_findBind (name : Text) (s : List Item) (h : fragItems s = true) :
     findQuoted name s = findBind name s := by
@@ -673,6 +719,34 @@ theorem navRel_child (st : St) (e : Expr) (E : Env) (sid : Nat) (r : Bool) (item
   · have hne : flat (childEnv r items E e.layers) ≠ [] := fun hf => hnil ((flat_eq_nil _).1 hf)
     exact ⟨hok, hv, by rw [get_set_ne _ _ _ hne]; rfl, fun hE => absurd hE hnil⟩
 
+/-- `getitemSet` with the binding looked up by spelling: what `AttributeSet.__getitem__` does when
+    neither the key nor a binding name of the set is quoted (`getitemSet_bare`) -/
+def getitemSetSpelled (k : Resolver) (st : St) (self : Expr) (key : Text) : Except Fail Expr × St :=
+  match self.core with
+  | .set _ _ items =>
+    match findBind key items with
+    | some (_, v) =>
+      match scopesForOwner k st self with
+      | (.error f, st1) => (.error f, st1)
+      | (.ok ch, st1) => (.ok v, st1.set (nodeId v) ch)
+    | none =>
+      match findInherit key items with
+      | some it =>
+        match scopesForOwner k st self with
+        | (.error f, st1) => (.error f, st1)
+        | (.ok ch, st1) =>
+          let tid := inhCopyId (itemId it)
+          (.ok (.ref tid key), st1.set tid (ch ++ [items]))
+      | none => (.error .key, st)
+  | _ => (.error .type, st)
+
+theorem getitemSet_bare (k : Resolver) (st : St) (e : Expr) (key : Text) (sid : Nat) (r : Bool)
+    (items : List Item) (hc : e.core = .set sid r items) (hi : fragItems items = true)
+    (hk : bareName key = true) : getitemSet k st e key = getitemSetSpelled k st e key := by
+  unfold getitemSet getitemSetSpelled
+  simp only [hc, findBindKey_eq_findBind key items hk hi]
+  rfl
+
 /-- the store after `set[key]` handed out the value `v` -/
 def childSt (st : St) (e : Expr) (E : Env) (sid : Nat) (r : Bool) (items : List Item) (v : Expr) : St :=
   (if r then st.set sid (flat E ++ e.layers) else st).set (nodeId v) (flat (childEnv r items E e.layers))
@@ -680,7 +754,8 @@ def childSt (st : St) (e : Expr) (E : Env) (sid : Nat) (r : Bool) (items : List 
 /-- Lemma G (binding): `set[key]` on a binding of the set -/
 theorem getitemSet_bind (k : Resolver) (st : St) (e : Expr) (E : Env) (sid : Nat) (r : Bool)
     (items : List Item) (key : Text) (bid : Nat) (v : Expr) (h : NavRel st e E)
-    (hc : e.core = .set sid r items) (hb : findBind key items = some (bid, v)) :
+    (hc : e.core = .set sid r items) (hkb : bareName key = true)
+    (hb : findBind key items = some (bid, v)) :
     getitemSet k st e key = (.ok v, childSt st e E sid r items v) ∧
       NavRel (childSt st e E sid r items v) v (childEnv r items E e.layers) := by
   have hi := core_set_frag e h.frag sid r items hc
@@ -689,7 +764,8 @@ theorem getitemSet_bind (k : Resolver) (st : St) (e : Expr) (E : Env) (sid : Nat
     · rw [h1] at hb; cases hb
     · rw [h1] at hb; injection hb with hb; injection hb with _ hb; subst hb; exact h3
   refine ⟨?_, navRel_child st e E sid r items v h hc hv⟩
-  unfold getitemSet childSt
+  rw [getitemSet_bare k st e key sid r items hc hi hkb]
+  unfold getitemSetSpelled childSt
   simp only [hc, hb, scopesForOwner_set k st e E sid r items h hc]
 
 
@@ -966,7 +1042,7 @@ theorem getitem_set (k : Resolver) (F : Nat) (st : St) (e : Expr) (key : Text) (
 /-- F3: the path ends on a name a plain set inherits -/
 theorem final_inherit (prog : Expr) (st : St) (e : Expr) (E : Env) (sid : Nat) (items : List Item)
     (key : Text) (it : Item) (h : NavRel st e E) (hc : e.core = .set sid false items)
-    (hb : findBind key items = none) (hi : findInherit key items = some it) (F fs : Nat)
+    (hkb : bareName key = true) (hb : findBind key items = none) (hi : findInherit key items = some it) (F fs : Nat)
     (hF : remE [] [] (.recF items :: pushLets E e.layers) < F)
     (hs : Settled (specFrom fs prog (.at ⟨e, E⟩) [.key key])) :
     agrees (implFrom F prog st (.at e) [.key key]) (specFrom fs prog (.at ⟨e, E⟩) [.key key]) = true := by
@@ -987,7 +1063,8 @@ theorem final_inherit (prog : Expr) (st : St) (e : Expr) (E : Env) (sid : Nat) (
     have hchild : childEnv false items E e.layers = E' := rfl
     have hst : getitemSet (resolveId (F + 1)) st e key =
         (.ok (.ref (inhCopyId iid) key), st.set (inhCopyId iid) (flat (.recF items :: E'))) := by
-      unfold getitemSet
+      rw [getitemSet_bare _ st e key sid false items hc hfi hkb]
+      unfold getitemSetSpelled
       simp only [hc, hb, hi, scopesForOwner_set _ st e E sid false items h hc, hchild, itemId,
         Bool.false_eq_true, if_false, flat_cons]
     have himpl : implFrom (F + 1) prog st (.at e) [.key key] =
@@ -1054,24 +1131,30 @@ theorem keysOnly_cons (s : Step) (rest : List Step) (h : keysOnly (s :: rest) = 
   | key k => exact ⟨⟨k, rfl⟩, h.2⟩
   | deref => exact absurd rfl h.1
 
+theorem keysBare_cons (key : Text) (rest : List Step) (h : keysBare (.key key :: rest) = true) :
+    bareName key = true ∧ keysBare rest = true := by
+  simpa only [keysBare, List.all_cons, Bool.and_eq_true] using h
+
 /-- Navigation by keys inside the fragment: from related positions the two traversals agree. -/
 theorem nav_agree (prog : Expr) : ∀ (path : List Step) (st : St) (e : Expr) (E : Env),
-    NavRel st e E → keysOnly path = true → endsOnRecInherit (path.length + 1) e path = false →
+    NavRel st e E → keysOnly path = true → keysBare path = true → endsOnRecInherit (path.length + 1) e path = false →
     ∃ N, ∀ F fs, N ≤ F → Settled (specFrom fs prog (.at ⟨e, E⟩) path) →
       agrees (implFrom F prog st (.at e) path) (specFrom fs prog (.at ⟨e, E⟩) path) = true := by
   intro path
   induction path with
   | nil =>
-    intro st e E h _ _
+    intro st e E h _ _ _
     rcases frag_ref_or_not e h.frag with ⟨j, n, rfl⟩ | hnr
     · exact ⟨remE [] [] E + 1, fun F fs hF hs => final_ref prog st j n E h F fs (by omega) hs⟩
     · exact ⟨0, fun F fs _ _ => final_nonref prog st e E hnr F fs⟩
   | cons s rest ih =>
-    intro st e E h hk hr
+    intro st e E h hk hq hr
     obtain ⟨⟨key, rfl⟩, hk'⟩ := keysOnly_cons s rest hk
+    obtain ⟨hkb, hq'⟩ := keysBare_cons key rest hq
     rcases frag_core_cases e h.frag with ⟨sid, r, items, hc⟩ | ⟨hns, hnw⟩
     · -- standing on a set
       have hsyn := synTarget_of_core e h.frag sid r items hc
+      have hfi := core_set_frag e h.frag sid r items hc
       cases hb : findBind key items with
       | some p =>
         obtain ⟨bid, v⟩ := p
@@ -1079,8 +1162,8 @@ theorem nav_agree (prog : Expr) : ∀ (path : List Step) (st : St) (e : Expr) (E
         have hbv := bindValue_of_findBind key items bid v hb
         have hr' : endsOnRecInherit (rest.length + 1) v rest = false := by
           simpa only [List.length_cons, endsOnRecInherit, hsyn, hbv] using hr
-        obtain ⟨hg, hnav⟩ := getitemSet_bind (resolveId 0) st e E sid r items key bid v h hc hb
-        obtain ⟨N, hN⟩ := ih _ v (childEnv r items E e.layers) hnav hk' hr'
+        obtain ⟨hg, hnav⟩ := getitemSet_bind (resolveId 0) st e E sid r items key bid v h hc hkb hb
+        obtain ⟨N, hN⟩ := ih _ v (childEnv r items E e.layers) hnav hk' hq' hr'
         refine ⟨N + 1, fun F fs hF hs => ?_⟩
         cases F with
         | zero => omega
@@ -1088,7 +1171,7 @@ theorem nav_agree (prog : Expr) : ∀ (path : List Step) (st : St) (e : Expr) (E
           have hi : implFrom (F + 1) prog st (.at e) (.key key :: rest) =
               implFrom (F + 1) prog (childSt st e E sid r items v) (.at v) rest := by
             rw [implFrom_cons, stepNav_at_key, getitem_set _ _ _ _ _ sid r items hc,
-              (getitemSet_bind (resolveId (F + 1)) st e E sid r items key bid v h hc hb).1]
+              (getitemSet_bind (resolveId (F + 1)) st e E sid r items key bid v h hc hkb hb).1]
           cases fs with
           | zero =>
             have : specFrom 0 prog (.at ⟨e, E⟩) (.key key :: rest) = .navError .fuel := by
@@ -1114,8 +1197,9 @@ theorem nav_agree (prog : Expr) : ∀ (path : List Step) (st : St) (e : Expr) (E
           | zero => omega
           | succ F =>
             have himpl : implFrom (F + 1) prog st (.at e) (.key key :: rest) = .nav .key := by
-              rw [implFrom_cons, stepNav_at_key, getitem_set _ _ _ _ _ sid r items hc]
-              simp only [getitemSet, hc, hb, hi]
+              rw [implFrom_cons, stepNav_at_key, getitem_set _ _ _ _ _ sid r items hc,
+                getitemSet_bare _ st e key sid r items hc hfi hkb]
+              simp only [getitemSetSpelled, hc, hb, hi]
             cases fs with
             | zero =>
               have : specFrom 0 prog (.at ⟨e, E⟩) (.key key :: rest) = .navError .fuel := by
@@ -1136,7 +1220,7 @@ theorem nav_agree (prog : Expr) : ∀ (path : List Step) (st : St) (e : Expr) (E
               exact hr
             subst hrf
             exact ⟨remE [] [] (.recF items :: pushLets E e.layers) + 1, fun F fs hF hs =>
-              final_inherit prog st e E sid items key it h hc hb hi F fs (by omega) hs⟩
+              final_inherit prog st e E sid items key it h hc hkb hb hi F fs (by omega) hs⟩
           | cons s2 rest2 =>
             -- a further key on an identifier: TypeError on both sides
             obtain ⟨⟨key2, rfl⟩, _⟩ := keysOnly_cons s2 rest2 hk'
@@ -1145,8 +1229,9 @@ theorem nav_agree (prog : Expr) : ∀ (path : List Step) (st : St) (e : Expr) (E
             | zero => omega
             | succ F =>
               have himpl : implFrom (F + 1) prog st (.at e) (.key key :: .key key2 :: rest2) = .nav .type := by
-                rw [implFrom_cons, stepNav_at_key, getitem_set _ _ _ _ _ sid r items hc]
-                simp only [getitemSet, hc, hb, hi, scopesForOwner_set _ st e E sid r items h hc]
+                rw [implFrom_cons, stepNav_at_key, getitem_set _ _ _ _ _ sid r items hc,
+                  getitemSet_bare _ st e key sid r items hc hfi hkb]
+                simp only [getitemSetSpelled, hc, hb, hi, scopesForOwner_set _ st e E sid r items h hc]
                 rw [implFrom_cons, stepNav_at_key]
                 simp only [getitem, Expr.core, peel]
               cases fs with
@@ -1261,7 +1346,7 @@ theorem resolve_partial_settled (prog : Expr) (path : List Step) (h : InFragment
     ∃ N, ∀ F fs, N ≤ F → Settled (specResolve fs prog path) →
       agrees (implResolve F prog path) (specResolve fs prog path) = true := by
   simp only [InFragment, Bool.and_eq_true, Bool.not_eq_true'] at h
-  obtain ⟨⟨⟨hf, hk⟩, hri⟩, htop⟩ := h
+  obtain ⟨⟨⟨⟨hf, hk⟩, hq⟩, hri⟩, htop⟩ := h
   cases path with
   | nil => exact ⟨0, fun F fs _ _ => by rw [implResolve_eq, specResolve_eq]; rfl⟩
   | cons s rest =>
@@ -1327,7 +1412,7 @@ theorem resolve_partial_settled (prog : Expr) (path : List Step) (h : InFragment
     · -- the document is a set: walk from it
       have hnav := navRel_root prog hf
       have hri' : endsOnRecInherit ((Step.key key :: rest).length + 1) prog (.key key :: rest) = false := hri
-      obtain ⟨N, hN⟩ := nav_agree prog (.key key :: rest) {} prog [] hnav hk hri'
+      obtain ⟨N, hN⟩ := nav_agree prog (.key key :: rest) {} prog [] hnav hk hq hri'
       refine ⟨N + 1, fun F fs hF hs => ?_⟩
       rw [implResolve_eq, specResolve_eq] at *
       cases F with
@@ -1541,7 +1626,7 @@ theorem nav_settled (prog : Expr) : ∀ (path : List Step) (e : Expr) (E : Env),
 theorem spec_settles (prog : Expr) (path : List Step) (h : InFragment prog path = true) :
     ∃ M, ∀ fs, M ≤ fs → Settled (specResolve fs prog path) := by
   simp only [InFragment, Bool.and_eq_true, Bool.not_eq_true'] at h
-  obtain ⟨⟨⟨hf, hk⟩, hri⟩, _⟩ := h
+  obtain ⟨⟨⟨⟨hf, hk⟩, _⟩, hri⟩, _⟩ := h
   cases path with
   | nil => exact ⟨0, fun fs _ => ⟨(fun h => nomatch h), (fun h => nomatch h)⟩⟩
   | cons s rest =>
